@@ -411,7 +411,39 @@ func (c *c06Case) Run(ctx *core.Ctx) {
 			want = "LFB"
 			withComponents = true
 		}
+		if c.Var == "props-var" || c.Var == "props-destructured" || c.Var == "props-after-body" {
+			// the layout's slot binds props; the page's template declares a name for them
+			files["layouts/l.vuego"] = `<html><body><aside><slot name="side" :x="n7" :y="'why'">LFB</slot></aside><main v-html="content"></main></body></html>`
+			decl, use := `#side="sp"`, `{{ sp.x }}-{{ sp.y }}`
+			if c.Var == "props-destructured" {
+				decl, use = `v-slot:side="{ x, y }"`, `{{ x }}-{{ y }}`
+			}
+			tmpl := `<template ` + decl + `><b>` + use + `</b>` + csrc + `</template>`
+			files["page.vuego"] = "---\nlayout: l\n---\n" + tmpl + `<p>body</p>`
+			if c.Var == "props-after-body" {
+				files["page.vuego"] = "---\nlayout: l\n---\n" + `<p>body</p>` + tmpl + `<p>tail</p>`
+			}
+			want = "7-why" + ctext
+		}
 		expectText("aside", []string{want}, "layout-slot")
+		if c.Var != "none" && c.Var != "for-component" && c.Var != "for-component-short" {
+			// content handed to the layout is rendered in the layout's slot, not in the page content as well
+			checks = append(checks, func(nodes []*html.Node) (string, string) {
+				m := htmlcmp.Find(nodes, func(n *html.Node) bool { return n.Data == "main" })
+				if len(m) != 1 {
+					return "layout-content", "no <main>"
+				}
+				got := strings.Join(strings.Fields(htmlcmp.Text(m[0])), "")
+				wantMain := "body"
+				if c.Var == "props-after-body" {
+					wantMain = "bodytail"
+				}
+				if got != wantMain {
+					return "layout-content", fmt.Sprintf("page content inside <main> is %q, want %q (the slot template belongs to the layout's slot)", got, wantMain)
+				}
+				return "", ""
+			})
+		}
 		trig = c.Var + "/" + c.Kind
 	}
 	if c.After != "" {
@@ -449,7 +481,7 @@ func init() {
 		ID:        "C06",
 		Level:     "exploration",
 		CPUBudget: 10,
-		Rule: "component with header/default/footer slots (fallback on two of them) used by includers supplying every subset in every form (v-slot:, #, plain children, v-slot, v-slot:default) x 4 content kinds (static, {{ }} of an includer variable, :attr, text) x 6 instance arrangements (incl. an include tag carrying v-if / v-else); scoped slots (4 components incl. slot in v-for) x {named var, destructured, fallback, plain}; same slot used twice; nested components (5 arrangements); layout-inherited slots; slot names written with capital letters; components whose prop / front-matter key / loop variable / template variable has the name of the includer's variable that the content reads; " +
+		Rule: "component with header/default/footer slots (fallback on two of them) used by includers supplying every subset in every form (v-slot:, #, plain children, v-slot, v-slot:default) x 4 content kinds (static, {{ }} of an includer variable, :attr, text) x 6 instance arrangements (incl. an include tag carrying v-if / v-else); scoped slots (4 components incl. slot in v-for) x {named var, destructured, fallback, plain}; same slot used twice; nested components (5 arrangements); layout-inherited slots (also with props the layout's slot binds, declared by name or destructured, and never rendered a second time in the page content); slot names written with capital letters; components whose prop / front-matter key / loop variable / template variable has the name of the includer's variable that the content reads; " +
 			"every case also right after a render (on another engine) that passes content for all those slot names to a component and through a layout to the components the layout includes; " +
 			"whitespace part: content whose parts are separated by a space, a newline or a non-breaking space, content that is a non-breaking space only, padded and blank content, supplied plain / in a v-slot template / for a named slot to a slot inside <pre>, with exact text; " +
 			"oracle: expected normalised text (and bound attributes) at every slot position. non-trivial = all",
@@ -504,6 +536,11 @@ func init() {
 				emit(&c06Case{Part: "layout", Var: "supplied", Kind: k})
 			}
 			emit(&c06Case{Part: "layout", Var: "none", Kind: "static"})
+			for _, v := range []string{"props-var", "props-destructured", "props-after-body"} {
+				for _, k := range []string{"static", "dyn", "text"} {
+					emit(&c06Case{Part: "layout", Var: v, Kind: k})
+				}
+			}
 			emit(&c06Case{Part: "layout", Var: "for-component", Kind: "static"})
 			emit(&c06Case{Part: "layout", Var: "for-component", Kind: "dyn"})
 			emit(&c06Case{Part: "layout", Var: "for-component-short", Kind: "static"})
